@@ -114,6 +114,83 @@ fn strip(o: &Value) -> String {
     serde_json::to_string(&o).unwrap()
 }
 
+
+#[derive(Default)]
+struct Stats { closes: u64, points: u64, torn: u64, before: u64, after: u64, other: u64, unreadable: u64, cross: u64, images: u64 }
+
+/// Reopens the crash images collected during one step and emits one CrashProbe event per distinct outcome.
+#[allow(clippy::too_many_arguments)]
+fn probe_step(ctx: &Rc<RefCell<Ctx>>, rng: &mut Rng, wd: &vcore::Watchdog, trace: &mut Trace, st: &mut Stats, bad_samples: &mut Vec<Value>,
+              kind: Kind, probe_path: &str, before: &str, after: &str, run: u64, step: u64, max_points: usize, cross_every: u64) {
+    let (n_points, n_torn, n_before, n_after, n_other, n_unreadable, n_cross, n_images) =
+        (&mut st.points, &mut st.torn, &mut st.before, &mut st.after, &mut st.other, &mut st.unreadable, &mut st.cross, &mut st.images);
+            // ---- crash points of this step
+    let mut snaps: Vec<Snap> = std::mem::take(&mut ctx.borrow_mut().snaps);
+    *n_images += snaps.len() as u64;
+    if snaps.len() > max_points {
+        // uniform sample without replacement, keeping the order (seeded): all steps stay affordable
+        let mut keep: Vec<usize> = (0..snaps.len()).collect();
+        for i in 0..max_points {
+            let j = i + rng.below((keep.len() - i) as u64) as usize;
+            keep.swap(i, j);
+        }
+        let mut chosen: Vec<usize> = keep[..max_points].to_vec();
+        chosen.sort();
+        let mut it = 0;
+        let mut out = vec![];
+        for (i, s) in snaps.into_iter().enumerate() {
+            if it < chosen.len() && chosen[it] == i { out.push(s); it += 1; }
+        }
+        snaps = out;
+    }
+    let mut groups: HashMap<String, (u64, u64, Value, Value)> = HashMap::new(); // class -> (count, torn, sample detail)
+    for (si, s) in snaps.iter().enumerate() {
+        wd.kick(&format!("crash run {run} step {step} probing image {si}"));
+        *n_points += 1;
+        if s.torn { *n_torn += 1; }
+        let mut kinds = vec![kind];
+        if cross_every > 0 && (si as u64) % cross_every == 0 {
+            kinds.extend(Kind::all().iter().filter(|k| k.file_backed() && **k != kind));
+            *n_cross += 1;
+        }
+        for k in kinds {
+            // one group per DISTINCT recovered dump: the dump itself goes into the trace and TLC
+            // decides whether it is the model state before or after the interrupted step
+            let (class, detail, dump) = match probe(k, probe_path, s) {
+                Ok(o) => {
+                    let st = strip(&o);
+                    if st == before { ("before".to_string(), json!(""), o) }
+                    else if st == after { ("after".to_string(), json!(""), o) }
+                    else { (format!("other:{:x}", fnv(st.as_bytes())), json!(""), o) }
+                }
+                Err(e) => (format!("unreadable: {}", &e[..e.len().min(90)]), json!(e), Value::Null),
+            };
+            match class.as_str() { "before" => *n_before += 1, "after" => *n_after += 1, c if c.starts_with("other") => *n_other += 1, _ => *n_unreadable += 1 }
+            let g = groups.entry(format!("{}|{}", k.name(), class)).or_insert((0, 0, Value::Null, Value::Null));
+            g.0 += 1;
+            if s.torn { g.1 += 1; }
+            if g.2.is_null() {
+                g.2 = json!({"at": s.at, "torn": s.torn, "image_no": si, "data_len": s.data.len(), "wal_len": s.wal.len(), "detail": detail});
+                g.3 = dump;
+            }
+        }
+    }
+    let mut keys: Vec<&String> = groups.keys().collect();
+    keys.sort();
+    for key in keys {
+        let (count, torn, detail, dump) = &groups[key];
+        let (k, class) = key.split_once('|').unwrap();
+        let readable = !class.starts_with("unreadable");
+        let ev = json!({"ev": "CrashProbe", "variant": k, "ok": readable,
+                        "same_as": if readable { class } else { "none" }, "class": class, "count": count, "torn": torn, "detail": detail,
+                        "dump": if readable { dump.clone() } else { json!({}) }});
+        if (class != "before" && class != "after") && bad_samples.len() < 5 {
+            bad_samples.push(json!({"run": run, "step": step, "event": ev}));
+        }
+        trace.emit(ev);
+    }
+        }
+
 pub fn run(args: &Args) {
     let seed = args.num("seed", 1);
     let first = args.num("first", 0);
@@ -135,10 +212,9 @@ pub fn run(args: &Args) {
             c.on_event(e);
         }
     })));
-    let (mut n_points, mut n_torn, mut n_before, mut n_after, mut n_other, mut n_unreadable, mut n_steps, mut n_tx, mut n_cross) =
-        (0u64, 0u64, 0u64, 0u64, 0u64, 0u64, 0u64, 0u64, 0u64);
+    let (mut n_steps, mut n_tx) = (0u64, 0u64);
+    let mut st = Stats::default();
     let mut bad_samples: Vec<Value> = vec![];
-    let mut n_images = 0u64;
     for run in first..first + runs {
         let mut rng = Rng::new(seed.wrapping_mul(1_000_003).wrapping_add(run).wrapping_add(990_001));
         let kind = if run % 2 == 0 { Kind::Mapped } else { Kind::File };
@@ -147,12 +223,12 @@ pub fn run(args: &Args) {
         remove_files(&path);
         ctx.borrow_mut().path = path.clone();
         ctx.borrow_mut().seen.clear();
-        let mut db = match open(kind, &path) {
-            Ok(d) => d,
+        let mut dbo = match open(kind, &path) {
+            Ok(d) => Some(d),
             Err(e) => { trace.emit(json!({"ev": "OpenFailed", "err": e.description})); continue; }
         };
         trace.emit(json!({"ev": "Reset", "profile": "crash", "run": run, "variants": [kind.name()]}));
-        let mut obs = match observe(&db) { Ok(o) => merge(o, json!({"digest": "", "others": []})), Err(e) => json!({"ev": "ObserveFailed", "err": e}) };
+        let mut obs = match observe(dbo.as_ref().unwrap()) { Ok(o) => merge(o, json!({"digest": "", "others": []})), Err(e) => json!({"ev": "ObserveFailed", "err": e}) };
         trace.emit(obs.clone());
         let mut keys_pool = vec![];
         let mut step = 0;
@@ -161,6 +237,7 @@ pub fn run(args: &Args) {
             trace.flush();
             wd.kick(&format!("crash run {run} step {step}"));
             if obs["ev"] != "Observe" { break; }
+            let db = dbo.as_mut().unwrap();
             let view = View::from_obs(&obs);
             let before = strip(&obs);
             // the step: a single query or a transaction
@@ -181,7 +258,7 @@ pub fn run(args: &Args) {
             ctx.borrow_mut().armed = true;
             let ev = if is_tx {
                 let abort = if rng.chance(1, 3) { Some(rng.range(1, qs.len() as u64) as usize) } else { None };
-                let r = guarded(|| exec_tx(&mut db, &qs, abort));
+                let r = guarded(|| exec_tx(db, &qs, abort));
                 ctx.borrow_mut().armed = false;
                 match r {
                     Ok((results, committed)) => {
@@ -192,7 +269,7 @@ pub fn run(args: &Args) {
                     Err(p) => json!({"ev": "Panic", "query": "tx", "msg": p}),
                 }
             } else {
-                let r = guarded(|| exec_mq(&mut db, &qs[0]));
+                let r = guarded(|| exec_mq(db, &qs[0]));
                 ctx.borrow_mut().armed = false;
                 match r {
                     Ok(r) => merge(merge(qs[0].event(), qs[0].outcome(&r)), json!({"others": []})),
@@ -203,73 +280,35 @@ pub fn run(args: &Args) {
             trace.emit(ev);
             if panicked { break; }
             n_steps += 1;
-            obs = match observe(&db) { Ok(o) => merge(o, json!({"digest": "", "others": []})), Err(e) => json!({"ev": "ObserveFailed", "err": e}) };
+            obs = match observe(db) { Ok(o) => merge(o, json!({"digest": "", "others": []})), Err(e) => json!({"ev": "ObserveFailed", "err": e}) };
             trace.emit(obs.clone());
             if obs["ev"] != "Observe" { break; }
             let after = strip(&obs);
-            // ---- crash points of this step
-            let mut snaps: Vec<Snap> = std::mem::take(&mut ctx.borrow_mut().snaps);
-            n_images += snaps.len() as u64;
-            if snaps.len() > max_points {
-                // uniform sample without replacement, keeping the order (seeded): all steps stay affordable
-                let mut keep: Vec<usize> = (0..snaps.len()).collect();
-                for i in 0..max_points {
-                    let j = i + rng.below((keep.len() - i) as u64) as usize;
-                    keep.swap(i, j);
-                }
-                let mut chosen: Vec<usize> = keep[..max_points].to_vec();
-                chosen.sort();
-                let mut it = 0;
-                let mut out = vec![];
-                for (i, s) in snaps.into_iter().enumerate() {
-                    if it < chosen.len() && chosen[it] == i { out.push(s); it += 1; }
-                }
-                snaps = out;
-            }
-            let mut groups: HashMap<String, (u64, u64, Value)> = HashMap::new(); // class -> (count, torn, sample detail)
-            for (si, s) in snaps.iter().enumerate() {
-                wd.kick(&format!("crash run {run} step {step} probing image {si}"));
-                n_points += 1;
-                if s.torn { n_torn += 1; }
-                let mut kinds = vec![kind];
-                if cross_every > 0 && (si as u64) % cross_every == 0 {
-                    kinds.extend(Kind::all().iter().filter(|k| k.file_backed() && **k != kind));
-                    n_cross += 1;
-                }
-                for k in kinds {
-                    let (class, detail) = match probe(k, &probe_path, s) {
-                        Ok(o) => {
-                            let st = strip(&o);
-                            if st == before { ("before".to_string(), Value::Null) }
-                            else if st == after { ("after".to_string(), Value::Null) }
-                            else { ("other".to_string(), o) }
-                        }
-                        Err(e) => (format!("unreadable: {}", &e[..e.len().min(90)]), json!(e)),
-                    };
-                    match class.as_str() { "before" => n_before += 1, "after" => n_after += 1, "other" => n_other += 1, _ => n_unreadable += 1 }
-                    let g = groups.entry(format!("{}|{}", k.name(), class)).or_insert((0, 0, Value::Null));
-                    g.0 += 1;
-                    if s.torn { g.1 += 1; }
-                    if g.2.is_null() && !detail.is_null() {
-                        g.2 = json!({"at": s.at, "torn": s.torn, "image_no": si, "data_len": s.data.len(), "wal_len": s.wal.len(), "detail": detail});
-                    }
-                }
-            }
-            let mut keys: Vec<&String> = groups.keys().collect();
-            keys.sort();
-            for key in keys {
-                let (count, torn, detail) = &groups[key];
-                let (k, class) = key.split_once('|').unwrap();
-                let readable = !class.starts_with("unreadable");
-                let ev = json!({"ev": "CrashProbe", "variant": k, "ok": readable,
-                                "same_as": if readable { class } else { "none" }, "class": class, "count": count, "torn": torn, "detail": detail});
-                if (class != "before" && class != "after") && bad_samples.len() < 5 {
-                    bad_samples.push(json!({"run": run, "step": step, "event": ev}));
-                }
-                trace.emit(ev);
+            probe_step(&ctx, &mut rng, &wd, &mut trace, &mut st, &mut bad_samples, kind, &probe_path, &before, &after, run, step, max_points, cross_every);
+            // every few steps (and at the end): close the database with the hook armed (the close-time
+            // defragmentation is a sequence of storage transactions too), reopen, and probe those images
+            if step % 5 == 0 || step >= ops {
+                ctx.borrow_mut().snaps.clear();
+                ctx.borrow_mut().armed = true;
+                let closing = dbo.take().unwrap();
+                let r = guarded(move || { drop(closing); });
+                ctx.borrow_mut().armed = false;
+                if let Err(p) = r { trace.emit(json!({"ev": "Panic", "query": "close", "msg": p})); break; }
+                trace.emit(json!({"ev": "Maintain", "op": "close_reopen", "ok": true, "errs": []}));
+                dbo = match guarded(|| open(kind, &path)) {
+                    Ok(Ok(d)) => Some(d),
+                    Ok(Err(e)) => { trace.emit(json!({"ev": "OpenFailed", "err": e.description})); break; }
+                    Err(p) => { trace.emit(json!({"ev": "Panic", "query": "reopen", "msg": p})); break; }
+                };
+                obs = match observe(dbo.as_ref().unwrap()) { Ok(o) => merge(o, json!({"digest": "", "others": []})), Err(e) => json!({"ev": "ObserveFailed", "err": e}) };
+                trace.emit(obs.clone());
+                if obs["ev"] != "Observe" { break; }
+                let now = strip(&obs);
+                st.closes += 1;
+                probe_step(&ctx, &mut rng, &wd, &mut trace, &mut st, &mut bad_samples, kind, &probe_path, &after, &now, run, step, max_points, cross_every);
             }
         }
-        drop(db);
+        drop(dbo);
         remove_files(&path);
         remove_files(&probe_path);
     }
@@ -277,8 +316,8 @@ pub fn run(args: &Args) {
     trace.flush();
     println!("{}", serde_json::to_string(&json!({
         "first": first, "programs": runs, "steps": n_steps, "transactions": n_tx, "syscalls": ctx.borrow().syscalls,
-        "distinct_images_seen": n_images, "crash_points": n_points, "torn_points": n_torn, "recovered_before": n_before, "recovered_after": n_after,
-        "recovered_other": n_other, "unreadable": n_unreadable, "cross_variant_points": n_cross, "bad_samples": bad_samples,
+        "distinct_images_seen": st.images, "crash_points": st.points, "torn_points": st.torn, "recovered_before": st.before, "recovered_after": st.after,
+        "recovered_other": st.other, "unreadable": st.unreadable, "cross_variant_points": st.cross, "closes_probed": st.closes, "bad_samples": bad_samples,
         "trace_events": trace.events,
     })).unwrap());
 }
